@@ -77,7 +77,7 @@ def run(rep, tier, seed, replay=None):
                 progs.append([l.rstrip("\n") for l in open(os.path.join(cp, f)) if l.strip() and not l.startswith("#")])
         r = C.rng(seed, "c06")
         for _ in range(8000 if tier == "thorough" else 1000):
-            progs.append(sync_gen.gen_c06(r, tier == "thorough"))
+            progs.append(sync_gen.gen_c06_barge(r, tier == "thorough") if r.random() < 0.3 else sync_gen.gen_c06(r, tier == "thorough"))
     try:
         results = hsim.run_programs(binary, progs)
     except RuntimeError as ex:
